@@ -1154,6 +1154,11 @@ class Executor:
         if name in self.G:
           self.havoc_state([name], f'lp{n}')
         continue
+      if name not in fr.env and name in self.contract.local_kinds:
+        # assigned in the loop for the first time: an arbitrary value of its declared kind
+        fr.env[name] = self.assume_wf(working_copy(self.contract.local_kinds[name].fresh(
+            self.path.fresh_name(f'lp{n}_{name}'))))
+        continue
       if name in fr.env:
         old = fr.env[name]
         if isinstance(old, (VPy, VExc)):
@@ -1314,6 +1319,10 @@ class Executor:
       return VStr(z3.Concat(a.e, b.e))
     if op == 'Add' and isinstance(a, VStr) and isinstance(b, VStr):
       ca, cb = a.concrete(), b.concrete()
+      if ca == '':
+        return b
+      if cb == '':
+        return a
       if ca is not None and cb is not None:
         return VStr(ca + cb)
       return VStr(sym.ufun('str_concat', sym.Str, sym.Str, sym.Str)(a.e, b.e))
